@@ -7,16 +7,21 @@ REGISTRATION = {
     "technique": "Lean 4 proof over an effect-level model of the disk cache (crash cuts, writer interleavings) + "
                  "differential correspondence incl. real crash points (strace kill injection) and scripted concurrent writers",
     "category": "proof",
-    "text": "Kernel-checked theorems over a Lean model of copyNamedFile/checkWriter/Put/Import/Link/Resolve/Chunked as "
-            "sequences of primitive file effects, for an uninterpreted hash: every crash cut of a single writer (any "
-            "source script, any prior file) leaves a file that, if it has the stored size, hashes to its digest; "
-            "successful Put is retrievable; Link needs the blob file; Resolve returns the hash of the manifest file; any "
-            "interleaving of writers whose sources are the true content is safe. Lean-checked witnesses for the "
-            "defects the model shares with the code (same-size re-link, zero-length blob link, failing co-writer, "
-            "chunk holes). Model = code is checked on random op histories (results + final disk), on every syscall-"
-            "level crash point of real writes executed in a child process killed under strace, and on seeded "
-            "deterministic interleavings of real concurrent Puts; the property predicate is re-evaluated on the real "
-            "disk after every step (re-hash of every blob Get reports with a stored size).",
+    "text": "Kernel-checked theorems over a Lean model of copyNamedFile/checkWriter/Put/Import/Link/Unlink/Resolve/Chunked "
+            "and names.Parse/isValidPart as sequences of primitive file effects, for an uninterpreted hash: every crash cut "
+            "of a single writer (any source script, any prior file) and every crash-restart-retry history leaves a file "
+            "that, if it has the stored size, hashes to its digest; successful Put is retrievable; Link needs the blob "
+            "(full strength for the Link with the zero-length refusal); Resolve returns the hash of the manifest file; "
+            "Link-then-Resolve for the tree's Link variant; any interleaving of writers whose sources are the true content "
+            "is safe; over every history every blob Get reports hashes to its name; names are confined (any string is "
+            "refused or denotes manifests/<h>/<n>/<m>/<t>, name operations never touch a blob). Lean-checked witnesses for "
+            "the defects the model shares with the code (zero-length blob link, failing co-writer, chunk holes; F8 fixed). "
+            "Tie 1: Link variant and the character classes/length limits of the real isValidPart regenerated from the tree "
+            "and consumed by decide. Tie 2: random op histories with hostile names (results + final disk), every syscall-"
+            "level crash point of real writes executed in a child process killed under strace, seeded deterministic "
+            "interleavings of real concurrent Puts (+ -race); L2 after every step: re-hash of every blob Get reports with a "
+            "stored size, store-ok-retrievable, acknowledged blobs stay, Link/Resolve agreement, directory-tree frame "
+            "condition of every operation.",
     "design_ref": "DESIGN.md §5 C08",
     "note": COMMON_NOTE + "Modelled, not verified: POSIX semantics of open/write/ftruncate/rename (program order = disk "
             "order, rename atomic, no torn write(2) other than a byte-prefix), io.Copy's 32 KiB buffering (scripts stay "
@@ -49,46 +54,88 @@ THEOREMS = [
     "OllamaVerif.C08.link_then_resolve_fixed",
     "OllamaVerif.C08.history_blobs_valid",
     "OllamaVerif.C08.history_get_trusted",
+    "OllamaVerif.C08.linkZ_then_resolve_fixed",
+    "OllamaVerif.C08.link_requires_blob_zero_checked",
+    "OllamaVerif.C08.F8zero_refused_with_zero_check",
+    "OllamaVerif.C08.link_confined",
+    "OllamaVerif.C08.unlink_confined",
+    "OllamaVerif.C08.history_manifests_confined",
+    "OllamaVerif.C08.crash_history_trusted",
+    "OllamaVerif.BlobCache.nameToPath_safe",
     # Tie 1: the Link theorems at the variant found in the tree (compile only for the repaired Link, fix 834f6be9a)
     "OllamaVerif.Tie.C08.tree_link_is_fixed",
     "OllamaVerif.Tie.C08.tree_link_then_resolve",
     "OllamaVerif.Tie.C08.tree_link_requires_blob",
     "OllamaVerif.Tie.C08.tree_relink_same_size_takes_effect",
+    "OllamaVerif.Tie.C08.name_first_chars_match",
+    "OllamaVerif.Tie.C08.name_rest_chars_match",
+    "OllamaVerif.Tie.C08.name_len_limits_match",
+    "OllamaVerif.Tie.C08.name_accepted_bytes_safe",
 ]
 # theorems about the PINNED Link (before fix 834f6be9a): kept as the record of finding F8, not claims about the tree
 HISTORICAL = ["OllamaVerif.C08.link_then_resolve_partial", "OllamaVerif.C08.F8_relink_same_size_keeps_old"]
 OVERLAY = {"server/internal/cache/blob/zz_verif_c08_test.go": "server_internal_cache_blob/zz_verif_c08_test.go"}
+NAMES_OVERLAY = {"server/internal/internal/names/zz_verif_c08_names_test.go": "server_internal_internal_names/zz_verif_c08_names_test.go"}
 PKG = "./server/internal/cache/blob/"
 
 
 def link_variant():
-    """Tie 1 (source fact): which Link is in the tree?  The repaired Link (proposed_fixes/C08-F8.patch) renames a
-    temporary file over the manifest; the pinned one calls copyNamedFile on the manifest name itself."""
+    """Tie 1 (source fact): which Link is in the tree?  0 = pinned (copyNamedFile on the manifest name itself),
+    1 = repaired (fix 834f6be9a: renames a verified temporary file over the link), 2 = 1 + the zero-length refusal
+    of proposed_fixes/C08-F8-zero.patch."""
     import os
     import re
     src = open(os.path.join(core.REPO, "server/internal/cache/blob/cache.go")).read()
     m = re.search(r"\nfunc \(c \*DiskCache\) Link\(.*?\n}\n", src, flags=re.S)
     body = m.group(0) if m else ""
-    return 1 if "os.Rename(" in body else 0
+    if "os.Rename(" not in body:
+        return 0
+    return 2 if re.search(r"info\.Size\(\) == 0\s*&&", body) else 1
 
 
-def regenerate(variant):
+def regenerate(ctx, variant):
     body = ("-- REGENERATED on every run by vlib/checks/c08.py from /repo's working tree. Do not edit.\n"
             "namespace OllamaVerif.Generated.C08\n"
             "/-- does `DiskCache.Link` in the tree rename a verified temporary file over the link (true), or copy in place\n"
             "    with copyNamedFile's same-size shortcut (false, finding F8)? -/\n"
-            f"def linkFixed : Bool := {'true' if variant else 'false'}\n"
+            f"def linkFixed : Bool := {'true' if variant >= 1 else 'false'}\n"
+            "/-- does it refuse a zero-length blob file unless the digest is that of the empty string? -/\n"
+            f"def linkZeroCheck : Bool := {'true' if variant >= 2 else 'false'}\n"
             "end OllamaVerif.Generated.C08\n")
     core.write_generated("OllamaVerif/Generated/C08_LinkVariant.lean", body)
+    # character classes / length limits of the real names.isValidPart
+    rc, out, outdir = ctx.go_test("./server/internal/internal/names/", NAMES_OVERLAY, "^TestVerifC08NameTable$")
+    first, rest, lens = [], [], []
+    if rc == 0:
+        for line in open(outdir + "/nametable.txt"):
+            t = line.split()
+            if t[0] == "first":
+                first.append(f"({t[1]}, [{', '.join(t[2:])}])")
+            elif t[0] == "rest":
+                rest.append(f"({t[1]}, [{', '.join(t[2:])}])")
+            elif t[0] == "len":
+                lens.append(f"({t[1]}, {t[2]}, {t[3]}, {t[4]})")
+    else:
+        ctx.violation("names-table-failed", "", out[-1500:], no_input=True)
+    body = ("-- REGENERATED on every run by vlib/checks/c08.py from /repo's working tree. Do not edit.\n"
+            "namespace OllamaVerif.Generated.C08\n"
+            "/-- per part kind (0 host, 1 namespace, 2 model, 3 tag): the bytes b with isValidPart(kind, [b]) -/\n"
+            "def firstChars : List (Nat × List Nat) := [" + ", ".join(first) + "]\n"
+            "/-- the bytes b with isValidPart(kind, ['a', b]) -/\n"
+            "def restChars : List (Nat × List Nat) := [" + ", ".join(rest) + "]\n"
+            "/-- (kind, largest accepted length of a^n, accepted lengths form [0,max], later bytes position independent) -/\n"
+            "def lenLimits : List (Nat × Nat × Nat × Nat) := [" + ", ".join(lens) + "]\n"
+            "end OllamaVerif.Generated.C08\n")
+    core.write_generated("OllamaVerif/Generated/C08_NameChars.lean", body)
 
 
 def run(ctx):
     variant = link_variant()
-    regenerate(variant)
+    regenerate(ctx, variant)
     ctx.lean_check(MODULES, THEOREMS)
     ctx.coverage["theorems_for_tree_link"] = [t for t in THEOREMS if ".Tie.C08." in t]
     ctx.coverage["theorems_about_pinned_link_only"] = HISTORICAL
-    ctx.coverage["link_variant"] = "repaired (temp+rename)" if variant else "pinned (in place)"
+    ctx.coverage["link_variant"] = ["pinned (in place)", "repaired (temp+rename)", "repaired + zero-length refusal"][variant]
     env = {"VERIF_C08_FIXED": variant, "VERIF_N": ctx.scale(1200, 30000), "VERIF_NCONC": ctx.scale(1200, 20000),
            "VERIF_NCRASH": ctx.scale(40, 200)}
     if ctx.replay:
